@@ -41,6 +41,9 @@ CHECK_DEADLOCK FALSE
 
 JUDGE_CFG = "INIT Init\nNEXT Next\nINVARIANT Judge\nCHECK_DEADLOCK FALSE\n"
 
+CAP_CFG = "INIT Init\nNEXT Next\nCONSTANT K = %d\nINVARIANT WellFormed\nINVARIANT Emit\nCHECK_DEADLOCK FALSE\n"
+CAP_K = 12
+
 STATE_CLAUSES = ["LonInRange", "LatInRange", "SamePoint", "DerivedUnit", "NormalizedIsUnit", "Confluence"]
 
 # catalogue meshes: the first group has nodes at both poles, on the antimeridian and on the prime
@@ -50,8 +53,19 @@ PRIMARY = ["rhombic_dodecahedron", "tetrakis_cube", "octahedron"]
 MIXED = ["cuboctahedron", "truncated_octahedron_split", "truncated_cube_split"]
 
 
-def pick_meshes(thorough, rng):
-    prim, mixed = [], []
+def cap_mesh(ctx):
+    """A mesh with nodes 4.8 degrees from the poles, defined and proved well-formed in CoordCap.tla."""
+    r = ctx.tlc_ok("CoordCap", CAP_CFG % CAP_K, what="polar-cap mesh K=%d well-formed" % CAP_K, workers=1)
+    caps = [p[1] for p in r.prints if isinstance(p, tuple) and len(p) == 2 and p[0] == "CAP"]
+    if len(caps) != 1:
+        raise Machinery("CoordCap printed %d meshes" % len(caps))
+    key = ("polar_cap", CAP_K, 0)
+    X.register_mesh(key, caps[0]["nodes"], caps[0]["faces"])
+    return key
+
+
+def pick_meshes(ctx, thorough, rng):
+    prim, mixed = [cap_mesh(ctx)], []
     rots = [0, 5, 11, 17, 22] if thorough else [0, 7]
     for n in PRIMARY:
         for r in rots:
@@ -98,6 +112,35 @@ def make_cases(tag, walks, nodes, meshes, feats, start=0):
     return cases
 
 
+def corrupt(recs):
+    """Three corrupted copies of one clean-looking recorded trace, each with the clause that must reject it."""
+    import copy
+
+    base = None
+    for r in recs:
+        st = r["steps"]
+        if len(st) >= 2 and st[-1]["act"] != "normalize" and "ret" in st[-1] and "node_lon" in st[-1]["tags"] and len(st[-2]["tags"]) >= 2:
+            base = r
+            break
+    if base is None:
+        raise Machinery("no recorded trace suitable for the binding demonstration")
+    out = []
+    a = copy.deepcopy(base)
+    a["id"] = "selftest:lon360"
+    a["steps"][-1]["tags"]["node_lon"] = "deg360"
+    out.append((a, "LonInRange"))
+    b = copy.deepcopy(base)
+    b["id"] = "selftest:vanished"
+    gone = sorted(v for v in b["steps"][-2]["tags"] if v != b["steps"][-1]["act"])[0]
+    del b["steps"][-1]["tags"][gone]
+    out.append((b, "Monotone"))
+    c = copy.deepcopy(base)
+    c["id"] = "selftest:returned"
+    c["steps"][-1]["ret"] = "bad"
+    out.append((c, "SamePoint"))
+    return out
+
+
 def run(ctx):
     rng = random.Random(ctx.seed)
     thorough = ctx.tier == "thorough"
@@ -130,7 +173,7 @@ def run(ctx):
 
     # 3. histories: counterexamples (shortest history to a failing state, one per source and clause set),
     #    a transition cover of the whole graph, random walks
-    prim, mixed, feats = pick_meshes(thorough, rng)
+    prim, mixed, feats = pick_meshes(ctx, thorough, rng)
     sp = X.shortest_paths(nodes, out, inits)
     cex = {}
     for u, cl in bad.items():
@@ -157,17 +200,23 @@ def run(ctx):
         cases += make_cases("rnd", rw, nodes, lambda w: [allm[(w * 3 + 2) % len(allm)]], feats)
 
     # 4. replay on real grids, record after every call
-    recs = pmap(X.replay, cases)
+    # compile the (non-parallel) numba kernels once in the parent so that the forked workers inherit them
+    for c in cases[:3]:
+        X.replay(dict(c, acts=list(X.VARS) + ["normalize"]))
+    nproc = int(os.environ.get("VERIF_NPROC", "0")) or min(8, os.cpu_count() or 4)
+    recs = pmap(X.replay, cases, nproc=nproc)
     by_id = {c["id"]: c for c in cases}
     broken = [r for r in recs if "build_error" in r]
     if broken:
         # constructing the source is C01's business; it is machinery here
         raise Machinery("%d sources could not be constructed, e.g. %s: %s" % (len(broken), broken[0]["id"], broken[0]["build_error"]))
 
-    # 5. TLC validates the traces against CoordLazy
+    # 5. TLC validates the traces against CoordLazy (with three corrupted copies of one trace that
+    #    it must reject: binding demonstration)
     path = os.path.join(ctx.work, "traces.ndjson")
+    corrupted = corrupt(recs)
     with open(path, "w") as fh:
-        for r in recs:
+        for r in recs + [c[0] for c in corrupted]:
             fh.write(json.dumps({k: r[k] for k in ("id", "src", "init", "steps")}) + "\n")
     rj = ctx.tlc_ok("TraceCoord", JUDGE_CFG, what="validate %d recorded histories step by step" % len(recs), env={"REC_FILE": path}, workers=8, count=False, timeout=3000)
     os.remove(path)
@@ -179,6 +228,12 @@ def run(ctx):
                 verdicts[p[1]] = sorted(p[2], key=str)
             if p[3]:
                 drift[p[1]] = (p[3][0], sorted(p[3][1], key=str))
+    for c, clause in corrupted:
+        got = {f[0] for f in verdicts.pop(c["id"], [])}
+        drift.pop(c["id"], None)
+        seen.discard(c["id"])
+        if clause not in got:
+            raise Machinery("the trace validator accepted a corrupted trace (%s: expected %s, got %s)" % (c["id"], clause, sorted(got)))
     if seen != {r["id"] for r in recs}:
         raise Machinery("the trace validator returned verdicts for %d of %d histories" % (len(seen), len(recs)))
     ctx.traces += len(recs)
@@ -224,7 +279,7 @@ def run(ctx):
             rp = {"src": src, "route": c["route"], "mesh": list(c["mesh"]), "acts": c["acts"][: max(step, 1)], "first_failing_step": step}
             ctx.violation("%s|%s|%s|%s" % (rid, clause, var, tag), clause, detail={"var": var, "tag": tag, "step": step, "lonconv": src["lonconv"]}, sig=sig, replay=rp)
     if drift:
-        ex = sorted(drift.items())[:3]
+        ex = [(k, v[0], v[1][:2]) for k, v in sorted(drift.items())[:2]]
         print("MODEL-DRIFT: %d of %d histories differ from the store MechObserved predicts (first step, {var, observed, predicted}), e.g. %s" % (len(drift), len(recs), ex))
     if not_reproduced:
         print("MODEL-DRIFT: %d TLC counterexamples of MechObserved were not reproduced by the code, e.g. %s" % (len(not_reproduced), not_reproduced[:3]))
